@@ -195,6 +195,7 @@ class Stack:
         self.transport = prot.transport = core.SimTransport(sim, NODE_NAME, NODE_ADDR)
         self.adapter_u = sd.DatagramProtocolAdapter(prot, is_multicast=False)
         self.adapter_m = sd.DatagramProtocolAdapter(prot, is_multicast=True)
+        self.transport.proto = self.adapter_u
         sim.open_socket(NODE_NAME, NODE_ADDR, "u", self.adapter_u.datagram_received, self.ctx, self.tag)
         sim.open_socket(NODE_NAME, NODE_ADDR, "m", self.adapter_m.datagram_received, self.ctx, self.tag, group=GROUP)
         self.filters = [config.Service(*f) for f in cfg.get("filters", [])]
@@ -552,7 +553,8 @@ def execute(plan):
     simcfg = {
         "sock_flip": cfg.get("sock_flip"),
         "uniform": cfg.get("uniform"),
-        "net": {"latency": cfg.get("latency", 0.0)},
+        # cfg["send_errors"] = [{t0, t1, rate}]: windows in which sendto() of the node under test fails (see NetFaults.send_error)
+        "net": {"latency": cfg.get("latency", 0.0), "windows": [dict(w, kind="senderr", node=NODE_ADDR[0]) for w in cfg.get("send_errors", [])]},
         "max_iterations": cfg.get("max_iterations", 200000),
         "mc_loop": cfg.get("mc_loop", False),
         "trace_timers": cfg.get("trace_timers", False),
